@@ -717,12 +717,23 @@ def evaluate_fresh(text, mkdata, timeout=20):
     return o
 
 
-def evaluate(text, data=None, timeout=20):
+_engine_noconv = None
+
+
+def engine_noconv():
+    """an engine with yaql.convertInputData switched off (data reaches the query as it is)"""
+    global _engine_noconv
+    if _engine_noconv is None:
+        _engine_noconv = yaql.YaqlFactory().create(options={"yaql.convertInputData": False})
+    return _engine_noconv
+
+
+def evaluate(text, data=None, timeout=20, ctx=None, eng=None):
     """-> ('val'|'set'|'dict', ...) or ('err', class, detail)"""
     old = signal.signal(signal.SIGALRM, _alarm)
     signal.alarm(timeout)
     try:
-        r = engine()(text).evaluate(data=data, context=context())
+        r = (eng or engine())(text).evaluate(data=data, context=ctx if ctx is not None else context())
         return canon(r)
     except Watchdog:
         return ("err", "EOther", "watchdog: no result within %ds" % timeout)
